@@ -130,7 +130,7 @@ def check(ctx):
             "let @a-b_c = { 'n [@a-b_c] };\nres /q on get -> <[@a-b_c]>;\n",
             "let s = 150; res /s on get -> <status=s, {}> :: <status=599, {}> :: <status=100, {}>;\n",
             "res /v/{ 'id num }/w/{ 'name str }?{ 'q str } on get -> <>;\n",
-            "let u = /base/{ 'k int }; res concat u /tail/{ 'j str } on put -> <>;\n",
+            "let u = /base/{ 'k int }; res (concat u (/tail/{ 'j str })) on put -> <>;\n",
         ]
         for s in extra:
             ps.append({"mods": {"file:///w/main.oal": s}, "main": "file:///w/main.oal", "features": ["corpus"], "ast": None})
